@@ -67,6 +67,8 @@ def _dec(t, s):
                     x = _dec(x, s)
                     if dtype.startswith('datetime64'):
                         return np.datetime64(x).astype(dtype)
+                    if dtype.startswith('timedelta64'):
+                        return np.timedelta64(x).astype(dtype) if isinstance(x, str) else np.timedelta64(x, dtype[dtype.index('[') + 1:-1])
                     return np.dtype(dtype).type(x)
                 if k == '$arr':
                     dtype, x = v[0], v[1]
@@ -75,6 +77,9 @@ def _dec(t, s):
                 if k == '$pdts':
                     import pandas as pd
                     return pd.Timestamp(v)
+                if k == '$pdnat':
+                    import pandas as pd
+                    return pd.NaT
                 if k == '$sr':   # generic Series: [index values, values, dtype|None]
                     import pandas as pd
                     return pd.Series(_dec(v[1], s), index=_dec(v[0], s), dtype=v[2] if len(v) > 2 else None)
